@@ -150,6 +150,25 @@ Fixpoint pbvi_loop (fuel j : nat) (amb eps : T) (B G : list (list T)) (fl : bool
 Definition pbvi_run (horizon : nat) (amb eps : T) (B : list (list T)) :=
   pbvi_loop horizon 0 amb eps B (map (fun _ => zerov) B) false.
 
+
+(* ---------------- one sweep, independent of tie-breaking ---------------- *)
+(* value at u of the best action-a backup of the vectors G: whatever maximiser is picked per
+   observation, the resulting vector has this value at u *)
+Definition backup_value (G : list (list T)) (u : nat -> T) (a : nat) : T :=
+  dot u (fun s => rM s a) +
+  gamma m * sumf (nO p) (fun o => odflt n0 (alpha_value G (step u a o))).
+(* the implementation's last sweep: cand[i][a] = its action-a vector at belief point B[i] (computed
+   from Gprev), idx[i] = the action it selected.  Each candidate has the tie-independent value at its
+   point, and the selected one is maximal there. *)
+Definition chk_sweep (tol : T) (Gprev B : list (list T)) (cand : list (list (list T))) (idx : list nat)
+  : bool :=
+  forallbn (length B) (fun i =>
+    let u := untab (nth i B []) in
+    let cv := fun a => dot u (untab (nth a (nth i cand []) [])) in
+    Nat.eqb (length (nth i cand [])) nAp &&
+    forallbn nAp (fun a => ncloseb tol (cv a) (backup_value Gprev u a) &&
+                           (cv a <=? cv (nth i idx 0) + tol))).
+
 (* ---------------- the checks the harness evaluates on msdm's output ---------------- *)
 Definition rmaxabs : T :=
   odflt n0 (maxf nSp (fun _ => true) (fun s =>
@@ -272,6 +291,7 @@ Definition chk_fullobs_geF tol j G (u : list T) := chk_fullobs_ge p tol j G (unt
 Definition mirror_cmp (horizon : nat) (amb eps : T) (B Gimpl : list (list T)) (tol : T) : nat * bool * bool :=
   let r := pbvi_runF horizon amb eps B in
   (snd (fst r), snd r, gclose tol (fst (fst r)) Gimpl).
+Definition chk_sweepF tol Gprev B cand idx := chk_sweep p tO_tab rM_tab tol Gprev B cand idx.
 Definition alpha_valueF G (u : list T) : T := odflt n0 (alpha_value p G (untab u)).
 Definition alpha_avF G (u : list T) : list T := tab (nA m) (alpha_action_value p G (untab u)).
 Definition qmdp_avF (Qt : list (list T)) (u : list T) : list T :=
